@@ -62,7 +62,16 @@ impl CopyHandle {
             fs::rename(to, backup)?;
         }
 
-        let outfd = File::create(to)?;
+        // Open without truncating and repeat the identity test on the
+        // open descriptor: another worker may have turned `to` into an
+        // alias of the source since the test above. Only then discard
+        // the old content.
+        let outfd = File::options().write(true).create(true).truncate(false).open(to)?;
+        let outmeta = outfd.metadata()?;
+        if outmeta.dev() == metadata.dev() && outmeta.ino() == metadata.ino() {
+            return Err(XcpError::DestinationExists("Source and destination are the same file.", to.to_path_buf()).into());
+        }
+        outfd.set_len(0)?;
         allocate_file(&outfd, metadata.len())?;
 
         let handle = CopyHandle {
